@@ -177,6 +177,9 @@ def judge(acc, recipe, version, mode, ss, origin, run_echo=True):
                 return
             acc.counters["error_identifies_flagged_variable"] += 1
         acc.counters["must_reject_rejected"] += 1
+        if origin != "mutated_random":
+            acc.sample({"origin": origin, "version": version, "routine_body": str((recipe["subs"][0]["body"] if recipe["subs"] else recipe["main"])[0])[:300],
+                        "oracle_flags": [list(x) for x in flagged[:3]], "compiler": "rejected: " + str(cause)[:80]}, cap=3)
         return
     # oracle: clean
     if err is not None:
